@@ -39,15 +39,15 @@ def fwdAdvance (s : RState) (req : DataRequest) (grp : Option SharedGroup) : M R
 
 /-- the broker alias used for this filter: an existing one, or a newly allocated one -/
 def fwdAlias (c : Conn) (req : DataRequest) : Option BrokerAliases × Option Nat :=
-  match c.brokerAliases.bind (fun b => alookup req.filter b.aliases) with
+  match (aliasesFor c req.filter).bind (fun b => alookup req.filter b.aliases) with
   | some a => (c.brokerAliases, some a)
-  | none => match c.brokerAliases with
-    | none => (none, none)
+  | none => match aliasesFor c req.filter with
+    | none => (c.brokerAliases, none)
     | some b => let (b', a) := b.setNew req.filter; (some b', a)
 
 /-- the forwards of one sweep, numbered and recorded in the inflight window when QoS > 0 -/
 def fwdNotifs (c : Conn) (req : DataRequest) (publishes : List (Pub × Option Cursor)) : Outgoing × List Notif :=
-  let existing := c.brokerAliases.bind (fun b => alookup req.filter b.aliases)
+  let existing := (aliasesFor c req.filter).bind (fun b => alookup req.filter b.aliases)
   let subId := alookup req.filter c.subscriptionIds
   let fwds := publishes.map (fun pc => (mkForward req.qos (fwdAlias c req).2 existing.isSome subId pc.1, pc.2))
   if req.qos = 0 then (c.out, fwds.map (fun pc => Notif.forward pc.1 pc.2))
